@@ -701,16 +701,14 @@ func main() {
 			}
 		}
 	}
-	// the relay over the connection factories NewClient builds itself, against a real loopback peer (netrelay.go)
+	// the relay over the connection factories NewClient builds itself, against a real loopback peer (netrelay.go). They come
+	// after the searches (a free run before them was seen to change one explored execution: process-wide state leaks from a
+	// free run into the controlled ones) and are not subject to the internal deadline: together they take about a second
 	if !vsched.Free() && vsched.FreeRuns == 0 {
 		ran := 0
 		for i, nc := range netCases() {
 			if i%*vrt.NShards != *vrt.Shard {
 				continue
-			}
-			if vrt.Expired() {
-				res.Exhaustive = false
-				break
 			}
 			if checkNetRelay(res, nc) {
 				ran++
